@@ -34,6 +34,8 @@ class Check(ReduceBase):
         nf = obs.get('normal_form')
         if nf is None:
             return None
+        if not nf.get('idempotent', True):
+            return f'reduce() is not a fixed point: reducing the result again rewrites {nf.get("first")} into {nf.get("again")}'
         if nf['reducible_pairs']:
             return f'the reduced chain still contains a reducible adjacent pair: {nf["reducible_pairs"]}'
         if nf['homotheties'] > 1:
